@@ -397,3 +397,40 @@ Proof.
     unfold wf_bytes. apply forallb_forall. intros x Hx. rewrite Forall_forall in Hwf. specialize (Hwf x Hx).
     unfold is_byte. apply andb_true_iff. split; [apply Z.leb_le|apply Z.ltb_lt]; lia.
 Qed.
+
+(* ---- the encoding is injective and prefix-free (what lets a length-prefixed stream be cut unambiguously) ---- *)
+
+Lemma send_ok_nonneg v bs : varint_send v = Ok bs -> 0 <= v.
+Proof.
+  intros Hs. destruct (Z_lt_le_dec v 0) as [Hneg | Hpos]; [| exact Hpos].
+  rewrite (send_negative v Hneg) in Hs. discriminate.
+Qed.
+
+Lemma below_pow128 n : 0 <= n -> n < 128 ^ (n + 1).
+Proof.
+  intros Hn. pose proof (Z.pow_gt_lin_r 128 (n + 1) ltac:(lia) ltac:(lia)). lia.
+Qed.
+
+Theorem send_prefix_free a b x y :
+  varint_send a = Ok x -> varint_send b = Ok (x ++ y) -> y = [] /\ a = b.
+Proof.
+  intros Ha Hb.
+  pose proof (send_ok_nonneg _ _ Ha) as Ha0. pose proof (send_ok_nonneg _ _ Hb) as Hb0.
+  set (m := Z.max a b).
+  assert (Hm : 0 <= m) by (unfold m; lia).
+  assert (Ham : 0 <= a < 128 ^ (m + 1)).
+  { split; [exact Ha0|]. apply Z.lt_le_trans with (128 ^ (a + 1)); [apply below_pow128; exact Ha0|].
+    apply Z.pow_le_mono_r; unfold m; lia. }
+  assert (Hbm : 0 <= b < 128 ^ (m + 1)).
+  { split; [exact Hb0|]. apply Z.lt_le_trans with (128 ^ (b + 1)); [apply below_pow128; exact Hb0|].
+    apply Z.pow_le_mono_r; unfold m; lia. }
+  pose proof (roundtrip m a x y Hm Ham Ha) as R1.
+  pose proof (roundtrip m b (x ++ y) [] Hm Hbm Hb) as R2.
+  rewrite app_nil_r in R2. rewrite R1 in R2. inversion R2. split; reflexivity.
+Qed.
+
+Theorem send_injective a b bs : varint_send a = Ok bs -> varint_send b = Ok bs -> a = b.
+Proof.
+  intros Ha Hb. rewrite <- (app_nil_r bs) in Hb.
+  destruct (send_prefix_free a b bs [] Ha Hb) as [_ E]. exact E.
+Qed.
